@@ -40,6 +40,7 @@ VALUES_CAP = {'quick': 12, 'thorough': 40}
 def setup(tier):
     from .. import values
     values.set_tier(tier)
+    values.enable_incomplete(True)
 
 
 def units(tier):
